@@ -66,6 +66,26 @@ Theorem c09_workload_complete : forall ops s k,
 Proof. exact workload_recovered_complete. Qed.
 Print Assumptions c09_workload_complete.
 
+(* a COMMIT the database refuses ('database is locked'): nothing is stored at any cut, and the answer is not SUCCESS *)
+Theorem c09_failed_commit_absent : forall o s k w ws,
+  writes_of o s = Some (w :: ws) ->
+  recover (crash_at k (trace_of_failed_commit o s)) s = s /\ failed_commit_acks_success o s = false.
+Proof. exact failed_commit_absent. Qed.
+Print Assumptions c09_failed_commit_absent.
+
+(* mirrored from the code as it is (observation, outside what C09 demands; see notes/C09.md): the refused operation's
+   changes stay pending in the live process and the next request's COMMIT applies them *)
+Theorem c09_refused_commit_pending_applied_by_next : forall ws ws2 s,
+  recover (map Write ws ++ [CommitFail; Ack] ++ map Write ws2 ++ [Commit; Ack]) s = apply_writes (ws ++ ws2) s.
+Proof. exact refused_commit_pending_applied_by_next. Qed.
+Print Assumptions c09_refused_commit_pending_applied_by_next.
+
+(* why the order matters: rolling back and committing again acknowledges an operation of which nothing is stored *)
+Theorem c09_retry_after_rollback_refuted : forall ws s,
+  recover (retry_trace ws) s = s /\ acked (retry_trace ws) = true.
+Proof. exact retry_acks_nothing. Qed.
+Print Assumptions c09_retry_after_rollback_refuted.
+
 (* ---- the hypotheses are satisfiable by non-trivial states, and the theorems are not vacuous *)
 Definition ex_store : store :=
   mkStore [(T_managed, 1, OT_symmetric); (T_crypto, 1, ST_pre_active); (T_keys, 1, 0); (T_sym, 1, 0); (T_names, 1, 1);
@@ -101,3 +121,7 @@ Theorem c09_two_commits_refuted :
     has_object (next_uid s) r = true /\ has_object (next_uid s + 1) r = false.
 Proof. exists ex_store, 5%nat. vm_compute. repeat split; reflexivity. Qed.
 Print Assumptions c09_two_commits_refuted.
+
+Example ex_failed_commit_hyp : writes_of (OActivate 1) ex_store = Some [WUpd T_crypto 1 ST_active].
+Proof. vm_compute. reflexivity. Qed.
+
